@@ -177,7 +177,7 @@ func kfPercent(args []KeyBuilderStage) (KeyBuilderStage, error) {
 		return stageErrArgRange(args, "1-4")
 	}
 
-	decimals, hasDecimals := EvalArgInt(args, 1, 1)
+	decimals, hasDecimals := EvalArgPrecision(args, 1, 1)
 	if !hasDecimals {
 		return stageArgError(ErrConst, 1)
 	}
@@ -255,7 +255,7 @@ func kfBytesize(args []KeyBuilderStage) (KeyBuilderStage, error) {
 		return stageErrArgRange(args, "1-2")
 	}
 
-	precision, pOk := EvalArgInt(args, 1, 0)
+	precision, pOk := EvalArgPrecision(args, 1, 0)
 	if !pOk {
 		return stageArgError(ErrNum, 1)
 	}
@@ -275,7 +275,7 @@ func kfBytesizeSi(args []KeyBuilderStage) (KeyBuilderStage, error) {
 		return stageErrArgRange(args, "1-2")
 	}
 
-	precision, pOk := EvalArgInt(args, 1, 0)
+	precision, pOk := EvalArgPrecision(args, 1, 0)
 	if !pOk {
 		return stageArgError(ErrNum, 1)
 	}
@@ -295,7 +295,7 @@ func kfDownscale(args []KeyBuilderStage) (KeyBuilderStage, error) {
 		return stageErrArgRange(args, "1-2")
 	}
 
-	precision, pOk := EvalArgInt(args, 1, 0)
+	precision, pOk := EvalArgPrecision(args, 1, 0)
 	if !pOk {
 		return stageArgError(ErrNum, 1)
 	}
